@@ -381,6 +381,7 @@ func propScaleScanner(c *Ctx) {
 		runScanCase(c, content, ops)
 	}
 	propScanHuge(c, 1<<24+37)
+	propScanBlocks(c)
 	// long multi-unreads, from the end-of-input slot, from the last character and from the middle, over tails with and
 	// without a line break
 	for _, t := range []int{15, 16, 17, 31, 32, 33, 34, 40, 64, 65, 130} {
@@ -421,6 +422,72 @@ func propScaleScanner(c *Ctx) {
 				}
 				ops = append(ops, "r", "r", "r", "r", "m3", "r", "u", "u", "r")
 				runScanCase(c, content, ops)
+			}
+		}
+	}
+}
+
+// line-break pairs across the multiples of large block sizes: the content is read to its end, then walked backwards over the
+// boundary one step at a time and forwards again; every position is compared with ONE forward scan (linear time)
+func propScanBlocks(c *Ctx) {
+	bases := []int{1 << 16, 1 << 17}
+	if c.Thorough {
+		bases = append(bases, 1<<15, 3<<16, 1<<20)
+	}
+	for _, base := range bases {
+		for _, a := range []rune{'x', '\n', '\r'} {
+			for _, b := range []rune{'x', '\n', '\r'} {
+				op := fmt.Sprintf("scanblock %d %d %d", base, a, b)
+				c.record(op, a != 'x' || b != 'x')
+				c.count("content-len:block-boundary")
+				note := ""
+				st := safeCallT(60*time.Second, func() string {
+					content := []rune(strings.Repeat("x", base-1))
+					content = append(content, a, b)
+					content = append(content, []rune("ab\ncd\re\r\nf")...)
+					n := len(content)
+					cs := string(content)
+					ls, cl := make([]int, n+2), make([]int, n+2)
+					f := rio.NewStringScanner(cs)
+					for k := 0; k <= n+1; k++ {
+						ls[k], cl[k] = f.Line(), f.Column()
+						f.Read()
+					}
+					s := rio.NewStringScanner(cs)
+					pos := 0
+					for pos <= n {
+						s.Read()
+						pos++
+					}
+					chk := func(what string) bool {
+						if s.Line() != ls[pos] || s.Column() != cl[pos] {
+							note = fmt.Sprintf("%s: at cursor %d the scanner reports %d:%d, a fresh forward scan %d:%d", what, pos, s.Line(), s.Column(), ls[pos], cl[pos])
+							return false
+						}
+						return true
+					}
+					for i := 0; i < 18 && pos > 0; i++ {
+						s.Unread()
+						pos--
+						if !chk(fmt.Sprintf("unread #%d from the end", i+1)) {
+							return ""
+						}
+					}
+					for i := 0; i < 6; i++ {
+						s.Read()
+						pos++
+						if !chk("read after the walk back") {
+							return ""
+						}
+					}
+					s.UnreadMany(9)
+					pos -= 9
+					chk("UnreadMany(9) across the boundary")
+					return ""
+				})
+				if st != "" || note != "" {
+					c.fail(Failure{Kind: "oracle", Op: op, Impl: st, Note: fmt.Sprintf("content of %d x, then %q %q, then \"ab\\ncd\\re\\r\\nf\": %s%s", base-1, string(a), string(b), note, st)})
+				}
 			}
 		}
 	}
